@@ -16,9 +16,14 @@ Mirrors, function by function (error branches included, in the Go order):
 * `BeginBlocker`                                                  x/marker/abci.go
 * `SendRestrictionFn` / `validateSendDenom` for a plain send without transfer agents, bypass
   accounts, deny list or required attributes                      x/marker/keeper/send_restrictions.go
-* the bank keeper as the shared `Ledger` (`SendCoins` = funds check + move; `MintCoins` to the
-  marker module pool followed by `SendCoinsFromModuleToAccount` = a credit of the marker's own
-  account; `SendCoinsFromAccountToModule` + `BurnCoins` = a debit of it).
+* the bank keeper as `Bank` = the shared `Ledger` of balances PLUS a separately stored supply
+  (`Bank.sup`, the bank module's supply store).  `GetSupply` reads the supply store, never the
+  balances.  `SendCoins` = funds check + `Bank.move` (balances only).  `MintCoins` to the marker
+  module pool followed by `SendCoinsFromModuleToAccount` = `Bank.mintTo` (a credit of the account
+  and `setSupply(supply + amt)`, forked x/bank/keeper/keeper.go:352-377);
+  `SendCoinsFromAccountToModule` + `BurnCoins` = `Bank.burnFrom` (a debit and
+  `setSupply(supply - amt)`, keeper.go:392-410).  That the two stores agree
+  (`GetSupply d = Σ balances of d`) is a theorem over histories (`PvProofs.C05`), not a definition.
 
 Environment operations (not marker code): `fmint` (another module mints a denom to a holder) and
 `govburn` (the gov module burns a deposit: `AddDeposit` then `DeleteAndBurnDeposits`,
@@ -103,9 +108,54 @@ abbrev GOV : Addr := "GOV"
 /-- `types.MarkerAddress(denom)` — the marker's own account. -/
 def acct (d : Denom) : Addr := "@" ++ d
 
+/-- The bank module's two stores: account balances (`led`, the shared append-only `Ledger`) and the
+supply store (`sup`, an append-only list of supply deltas; the stored total of `d` is
+`Coins.amountOf sup d`).  The supply store is written only by `mintTo` / `burnFrom` — exactly
+where the Go bank keeper calls `setSupply` (`MintCoins` keeper.go:377, `BurnCoins` keeper.go:410);
+`move` (`SendCoins`) never touches it. -/
+structure Bank where
+  led : Ledger := []
+  sup : Coins := []
+  deriving Repr
+
+namespace Bank
+/-- `GetBalance` -/
+def bal (b : Bank) (a : Addr) (d : Denom) : Int := b.led.bal a d
+/-- `GetSupply(denom).Amount`: a read of the supply store -/
+def supply (b : Bank) (d : Denom) : Int := Coins.amountOf b.sup d
+/-- `GetAllBalances` -/
+def balances (b : Bank) (a : Addr) : Coins := b.led.balances a
+/-- `SendCoins` (after its checks): balances only -/
+def move (b : Bank) (f t : Addr) (cs : Coins) : Bank := { b with led := b.led.move f t cs }
+/-- `MintCoins(pool, cs)` + `SendCoinsFromModuleToAccount(pool, a, cs)`: credit `a`, raise the stored supply -/
+def mintTo (b : Bank) (a : Addr) (cs : Coins) : Bank := { led := b.led.credit a cs, sup := b.sup ++ cs }
+/-- `SendCoinsFromAccountToModule(a, pool, cs)` + `BurnCoins(pool, cs)`: debit `a`, lower the stored supply -/
+def burnFrom (b : Bank) (a : Addr) (cs : Coins) : Bank :=
+  { led := b.led.debit a cs, sup := b.sup ++ Coins.neg cs }
+
+@[simp] theorem bal_mintTo (b : Bank) (a c : Addr) (cs : Coins) (d : Denom) :
+    (b.mintTo a cs).bal c d = b.bal c d + (if a = c then Coins.amountOf cs d else 0) := by
+  simp [mintTo, bal]
+@[simp] theorem bal_burnFrom (b : Bank) (a c : Addr) (cs : Coins) (d : Denom) :
+    (b.burnFrom a cs).bal c d = b.bal c d - (if a = c then Coins.amountOf cs d else 0) := by
+  simp [burnFrom, bal]
+@[simp] theorem supply_mintTo (b : Bank) (a : Addr) (cs : Coins) (d : Denom) :
+    (b.mintTo a cs).supply d = b.supply d + Coins.amountOf cs d := by
+  simp [mintTo, supply]
+@[simp] theorem supply_burnFrom (b : Bank) (a : Addr) (cs : Coins) (d : Denom) :
+    (b.burnFrom a cs).supply d = b.supply d - Coins.amountOf cs d := by
+  simp [burnFrom, supply]; omega
+theorem supply_move (b : Bank) (f t : Addr) (cs : Coins) (d : Denom) :
+    (b.move f t cs).supply d = b.supply d := rfl
+theorem bal_move (b : Bank) (f t c : Addr) (cs : Coins) (d : Denom) :
+    (b.move f t cs).bal c d =
+      b.bal c d - (if f = c then Coins.amountOf cs d else 0) + (if t = c then Coins.amountOf cs d else 0) := by
+  simp [move, bal, Ledger.bal_move]
+end Bank
+
 structure State where
   markers : List Marker := []
-  bank : Ledger := []
+  bank : Bank := {}
   /-- `Params.MaxSupply` (types/params.go:14) -/
   maxSupply : Int := 100000000000000000000
   /-- `Params.MaxTotalSupply` (deprecated uint64 field 1 of the stored params; `DefaultParams`
@@ -174,19 +224,19 @@ def getMarkerByDenom (s : State) (d : Denom) : Except Err Marker :=
 /-! ### bank -/
 
 /-- `bankKeeper.SendCoins` after the send restriction: spendable check, then move. -/
-def sendCoins (b : Ledger) (fromA toA : Addr) (cs : Coins) : Except Err Ledger := do
+def sendCoins (b : Bank) (fromA toA : Addr) (cs : Coins) : Except Err Bank := do
   check (Coins.nonneg cs) .invalid
   check ((Coins.denoms cs).all fun d => decide (Coins.amountOf cs d ≤ b.bal fromA d)) .funds
   pure (b.move fromA toA cs)
 
 /-- `AdjustCirculation` (marker.go:303): mint into / burn from the marker's own account until the
-bank supply of the denom equals `desired`. -/
-def adjustCirculation (b : Ledger) (d : Denom) (desired : Int) : Except Err Ledger :=
+bank's stored supply of the denom (`GetSupply`, marker.go:306) equals `desired`. -/
+def adjustCirculation (b : Bank) (d : Denom) (desired : Int) : Except Err Bank :=
   let cur := b.supply d
-  if cur < desired then .ok (b.credit (acct d) [(d, desired - cur)])
+  if cur < desired then .ok (b.mintTo (acct d) [(d, desired - cur)])
   else if desired < cur then
     if b.bal (acct d) d < cur - desired then .error .funds
-    else .ok (b.debit (acct d) [(d, cur - desired)])
+    else .ok (b.burnFrom (acct d) [(d, cur - desired)])
   else .ok b
 
 /-- `IncreaseSupply` (marker.go:343) -/
@@ -522,7 +572,7 @@ def bankSend (s : State) (fromA toA : Addr) (d : Denom) (n : Int) : Except Err S
   pure { s with bank := b }
 
 /-- the supply correction of `BeginBlocker` (abci.go:19-32) over the marker list -/
-def beginBlockAdjust (b : Ledger) : List Marker → Except Err Ledger
+def beginBlockAdjust (b : Bank) : List Marker → Except Err Bank
   | [] => .ok b
   | m :: rest =>
     if m.status = .active ∧ m.fixed = true ∧ m.supply ≠ b.supply m.denom then
@@ -540,7 +590,7 @@ def beginBlock (s : State) : Except Err State := do
 /-- environment: some other module mints `n` of `d` to `toA`. -/
 def foreignMint (s : State) (toA : Addr) (d : Denom) (n : Int) : Except Err State := do
   check (0 ≤ n) .invalid
-  pure { s with bank := s.bank.credit toA [(d, n)] }
+  pure { s with bank := s.bank.mintTo toA [(d, n)] }
 
 /-- environment: `fromA` deposits `n` of `d` on a governance proposal (`AddDeposit`: a restricted
 send to the gov module account) and the deposit is burned (`DeleteAndBurnDeposits`). -/
@@ -548,7 +598,7 @@ def govDepositBurn (s : State) (fromA : Addr) (d : Denom) (n : Int) : Except Err
   check (0 < n) .invalid
   check (!(s.bank.bal fromA d < n)) .funds
   sendRestriction s fromA GOV d
-  pure { s with bank := s.bank.debit fromA [(d, n)] }
+  pure { s with bank := s.bank.burnFrom fromA [(d, n)] }
 
 /-! ### operations -/
 
